@@ -93,6 +93,14 @@ def install():
     contracts.installed["c16"] = True
 
 
+class _MyTick(int):
+    """an application's own tick type"""
+
+
+class _MyTime(timedelta):
+    """an application's own timestamp type"""
+
+
 # ------------------------------------------------------------------------------------------ driver
 _FORM = 0
 _DISTRACTOR = None  # (chart, instrument, difficulty, a tick beyond its last tempo change)
@@ -117,7 +125,8 @@ def call(rec, chart, text, inst, diff, args, label):
     start = args[0] if len(args) > 0 else None
     end = args[1] if len(args) > 1 else None
     case = {"text": text, "instrument": inst, "difficulty": diff,
-            "args": [a if a is None or isinstance(a, int) else {"us": us(a)} for a in args]}
+            "args": [a if a is None or isinstance(a, int) else {"us": us(a)} for a in args],
+            "arg_types": [type(a).__name__ for a in args]}
     rec.ev()
     contracts.drain("C16")
     # an application holds several charts: in half of the calls ANOTHER chart (long tempo map) answers a tick-bounded question far
@@ -241,6 +250,17 @@ def drive(rec, rng, case):
             nt = rng.choice(notes).timestamp
             for s_, e_ in ((nt, nt + d1), (nt - d1 if nt > ZERO else nt, nt), (nt + d1, nt + d1 + d1), (nt, nt)):
                 call(rec, chart, text, inst, diff, (s_, e_), "form:ts2" if e_ > s_ else "error:zero_length")
+        # bounds that ARE ticks / timestamps without being plain int / timedelta objects: an application's own subclasses and enum constants
+        a_, b_ = ticks[0], ticks[-1] + 1
+        tsa_, tsb_ = be.timestamp_at_tick_no_optimize_return(a_), be.timestamp_at_tick_no_optimize_return(b_)
+        if tsb_ > tsa_:
+            call(rec, chart, text, inst, diff, (_MyTick(a_), b_), "bounds_of_subclass_types")
+            call(rec, chart, text, inst, diff, (a_, _MyTick(b_)), "bounds_of_subclass_types")
+            call(rec, chart, text, inst, diff, (_MyTime(microseconds=us(tsa_)), tsb_), "bounds_of_subclass_types")
+            call(rec, chart, text, inst, diff, (tsa_, _MyTime(microseconds=us(tsb_))), "bounds_of_subclass_types")
+        # an interval of a day and more (explicit timestamp end far beyond the last note)
+        call(rec, chart, text, inst, diff, (ZERO, timedelta(days=1, seconds=30)), "interval_of_a_day_or_more")
+        call(rec, chart, text, inst, diff, (ZERO, timedelta(days=2)), "interval_of_a_day_or_more")
         call(rec, chart, text, inst, diff, (None, 0), "end_tick_0")
         call(rec, chart, text, inst, diff, (0, 0), "end_tick_0")
         call(rec, chart, text, inst, diff, (ticks[-1] + 1, 0), "end_tick_0")
@@ -304,5 +324,7 @@ def replay(case, rec):
     if not out.ok:
         return
     args = tuple(a if a is None or isinstance(a, int) else timedelta(microseconds=a["us"]) for a in case["args"])
+    kinds = case.get("arg_types") or [None] * len(args)
+    args = tuple(_MyTick(a) if k == "_MyTick" else _MyTime(microseconds=us(a)) if k == "_MyTime" else a for a, k in zip(args, kinds))
     for _ in range(3):  # once per call form
         call(rec, out.chart, case["text"], case["instrument"], case["difficulty"], args, "replay")
